@@ -27,6 +27,7 @@ SHORT = ["(", ")", "{", "}", "fn", "let", "if", "else", "x", "1", "+", "=", ":",
 EXTRA_SEEDS = {
     "x_match": 'union U { A { v: int }, B {} }\nfn f(u: U) -> int {\n match u {\n A(a) => { return a.v }\n B(_b) => { return 0 }\n }\n}\nshadow f { assert (== (f U.A { v: 1 }) 1) }\nfn main() -> int { return (f U.B {}) }\nshadow main { assert true }\n',
     "x_ext": 'extern fn sqrt(x: float) -> float\nfn g(a: float) -> float {\n let mut r: float = 0.0\n unsafe { set r (sqrt a) }\n return r\n}\nshadow g { assert true }\nfn main() -> int {\n let t: (int, bool) = (1, true)\n if t.1 { return t.0 } else { return 2 }\n}\nshadow main { assert true }\n',
+    "x_fnval": 'fn inc(a: int) -> int { return (+ a 1) }\nshadow inc { assert true }\nfn pick(k: int) -> fn(int) -> int { return inc }\nshadow pick { assert true }\nimport "m.nano" as M\nfn main() -> int {\n let g: fn(int) -> int = inc\n let a: int = ((pick 1) 2)\n let b: int = (g ((pick 0) 3))\n let c: int = (M.f (inc 1))\n fn inner(q: int) -> int { return (+ q a) }\n let r: int = match (mk 1) { A(x) => { return x.v }, B(y) => 0 }\n return (+ (+ a b) (inner c))\n}\nshadow main { assert true }\n',
     "x_infix": 'enum E { P = 0, Q = 1 }\nstruct S { a: int, b: string }\nlet G: int = 3\nfn h(s: S, k: fn(int) -> int) -> int {\n let v: int = s.a + G * 2 - (k 1)\n for i in (range 0 2) {\n if v > i and not (v == 3) { continue } else if v < 0 { break } else { (println i) }\n }\n return -v\n}\nshadow h { assert true }\nfn main() -> int { return 0 }\nshadow main { assert true }\n',
 }
 HOLES = {
